@@ -249,8 +249,8 @@ PROPS["C12"] = {
             "tree depth <= 3; each outcome is observed through a real fallback, breaker (execution and standalone Record*), retry policy "
             "(retried / aborted) and hedge policy (first result accepted or hedged), all of them long-lived: one instance per configuration sees every outcome of the case, so a "
             "classification that depends on what the policy saw before disagrees with the model; plus one row per case of a deep-equality table (result types pointer / slice / map / "
-            "comparable struct holding a pointer / interface / string; outcome an equal copy in a distinct allocation, or a different value) through HandleResult and AbortOnResult; "
-            "non-trivial = classified as failure or abort-matching",
+            "comparable struct holding a pointer / interface / string; outcome an equal copy in a distinct allocation, or a different value) through HandleResult, AbortOnResult and a hedge policy's CancelOnResult; "
+            "non-trivial = classified as failure or abort-matching; plus the compose slice (see C01): the same conditions inside random policy stacks",
     "assumptions": ["predicates passed to HandleIf/AbortIf/CancelIf are pure", "reflect.DeepEqual on the result type is equality (int results)"],
     "modelled": ["errors.Is / util.ErrorTypesMatch over error trees are modelled (Err.is, Err.typeMatch) and validated differentially against Go, not verified",
                  "interface-typed targets of HandleErrorTypes are not generated"],
@@ -261,6 +261,7 @@ PROPS["C12"] = {
 }
 
 COMPOSE_DIFF = {"slice": "compose", "n_quick": 1920, "n_thorough": 6400, "seeds_thorough": 3, "n_search": 3200, "par": 16}
+PROPS["C12"]["diff"].append(COMPOSE_DIFF)   # classification inside compositions (what a hedge / retry / fallback around other policies matches)
 COMPOSE_RULE = ("compose slice (retry policies optionally with a max duration and scripts with outcomes that outlast it; scripted cancellation points, see C08): random stacks (depth 0-5, with repetition) of retry / breaker / bulkhead / rate limiter / fallback / cache / timeout "
                 "(+ a hedge in 1 of 6 cases: innermost, or in a third of them at any position) built from the real builders with random configurations and handle/abort/cancel "
                 "conditions; 1-5 successive executions per case against the same stateful instances, scripts of 0-8 outcomes (values 0-2, four "
@@ -430,7 +431,7 @@ PROPS["C18"] = {
             "interceptor on 6 x 7 context kinds x which source fires; (ii) per case one random end-to-end HTTP scenario against a loopback server (entry point RoundTripper / "
             "Request.Do; body none / NoBody / bytes.Buffer / bytes.Reader / strings.Reader / seekable stream / seekable stream handed over at offset 10 / plain stream, sizes "
             "0..70000 (1 MiB thorough), non-periodic payload; request context background / TODO / values / cancellable / deadline; executor context likewise; stack = optional "
-            "fallback, HTTP retry policy with 0-3 retries with or without ReturnLastFailure, in a quarter of the cases with an exponential backoff (2 ms .. 20 ms) added, and transparent inner timeout / hedge / breaker; server script of 1-5 attempts "
+            "fallback, HTTP retry policy with 0-3 retries with or without ReturnLastFailure, in a quarter of the cases with an exponential backoff (2 ms .. 20 ms) or a random delay (1-3 ms) added, and transparent inner timeout / hedge / breaker; server script of 1-5 attempts "
             "from 13 statuses, Retry-After 0 / 1 / abc / -1, empty / small / 200 kB / streamed bodies, dropped connections), one timed scenario (timeout firing on slow "
             "attempts; a hedge overlapping two attempts; caller cancelling mid-attempt) and one gRPC scenario (client or server interceptor, fake invoker / handler, script of "
             "status codes, stacks with retry / timeout / hedge / breaker). Observed: requests as received by the server (method, URL, headers, body bytes, arrival times), "
@@ -582,7 +583,7 @@ PROPS["C07"] = {
 }
 PROPS["C08"] = {
     "props": "Failsafe.Props.C08", "ties": [], "kernels": [],
-    "facts": ["rootHasCancelFunc", "bulkheadWaitReportsCancelResult", "limiterWaitReportsLastError", "bodies/bulkheadexecutor:executor.PreExecute", "locks/execution.Cancel", "locks/execution.InitializeRetry", "locks/execution.RecordResult", "locks/execution.IsCanceledWithResult",
+    "facts": ["rootHasCancelFunc", "bulkheadWaitReportsCancelResult", "limiterWaitReportsCancelResult", "bodies/bulkheadexecutor:executor.PreExecute", "locks/execution.Cancel", "locks/execution.InitializeRetry", "locks/execution.RecordResult", "locks/execution.IsCanceledWithResult",
               "bodies/execution:execution.Cancel", "bodies/execution:execution.InitializeRetry", "bodies/execution:execution.RecordResult",
               "bodies/execution:execution.isCanceledWithResult", "bodies/result:executionResult.Cancel", "bodies/executor:executor.executeAsync",
               "selects/retry.Apply", "selects/ratelimiter.acquirePermitsWithMaxWait", "selects/bulkhead.AcquirePermitWithMaxWait",
@@ -611,7 +612,7 @@ PROPS["C09"] = {
     "required_theorems": ["Failsafe.Props.C09.attempts_le", "Failsafe.Props.C09.hedge_k_not_before", "Failsafe.Props.C09.none_after_accept",
                           "Failsafe.Props.C09.at_most_one_send", "Failsafe.Props.C09.winner_produced_by_attempt", "Failsafe.Props.C09.cancellable_sent_at_once",
                           "Failsafe.Props.C09.losers_cancelled_winner_not"],
-    "diff": [COMPOSE_DIFF],
+    "diff": [COMPOSE_DIFF, {"slice": "classify", "n_quick": 150, "n_thorough": 1500, "seeds_thorough": 3, "n_search": 1500}],
     "rule": COMPOSE_RULE + "; plus STRESS hedge: maxHedges 0-3, delays 0.3-0.8 ms, default and CancelIf conditions, per-attempt durations 0-1.5 ms or blocking (termination rule: a blocking attempt only if some finite attempt yields a cancellable result), every completion order the scheduler produces; monitors: attempts <= maxHedges+1, hedge k not before the first k delays (a third of the runs with a delay function whose delays grow with every hedge), none after return, result produced by a finished attempt, non-cancellable only after all finished, losers cancelled and winner not at return",
     "runners": [stress_runner("hedge", "a hedged execution started too many or too early attempts, returned a result no attempt produced, delivered a non-cancellable result early, or left a loser uncancelled / cancelled the winner")],
     "assumptions": CONC_ASSUME + ["'accepted' = received by the coordinating loop"], "modelled": ["goroutines, atomics and the result channel are modelled as atomic actions"],
